@@ -88,12 +88,10 @@ def main(pid, tier, replay_path=None):
                     p.kill()
                     o = ''
                 outputs[name] = o
-                if 'PASS' in o or 'FAIL' in o or 'exit status 66' in o:
+                if o and p.returncode is not None:   # ended by itself (passed, failed, race exit code 66, or died of a fault the race made possible)
                     finished += 1
                 for rep, tops in parse_reports(o):
                     reports.append((name, rep, tops))
-            if finished < len(ps) // 2:
-                raise vlib.Inconclusive('race-detector runs did not finish: ' + next(iter(outputs.values()))[-600:])
             seen = set()
             for name, rep, tops in reports:
                 tops2 = [t for t in tops if t]
@@ -107,6 +105,8 @@ def main(pid, tier, replay_path=None):
                 vlib.log('data race in %s: %s' % (name, ' <-> '.join('%s (%s:%s)' % t for t in tops2)))
                 if len(violations) < 6:
                     violations.append(vlib.save_replay(pid, '%s_%d' % (tier, len(violations)), {'property': pid, 'job': name, 'accesses': tops2, 'report': rep[:6000]}))
+            if finished < len(ps) // 2 and not violations:
+                raise vlib.Inconclusive('race-detector runs did not finish: ' + next(iter(outputs.values()))[-600:])
             runs = 0
             for k in range(procs):
                 f = sc.path('rout_%d.ndjson' % k)
